@@ -45,6 +45,7 @@ static T bad_value(int kind)
     {
     case 0: return std::numeric_limits<T>::quiet_NaN();
     case 1: return std::numeric_limits<T>::infinity();
+    case 3: return std::numeric_limits<T>::max();             // finite, but its product with a weight above 1 is not (value faults only)
     default: return -std::numeric_limits<T>::infinity();
     }
 }
@@ -80,14 +81,17 @@ struct fn
     // weight faults: look at the weight of a poisoned point (both runs do, so that the protocol is the same)
     template <typename P> static void observe(P const& p, sz index, T f)
     {
-        if (g.src != src_weight || !g.poison.count(index)) return;
+        auto const it = g.poison.find(index);
+        if (it == g.poison.end() || !(g.src == src_weight || (g.src == src_value && it->second == 3))) return;
         T const w = p.weight();
         if (!g.paired && f != T() && !std::isfinite(f * w)) g.observed.insert(index);
     }
-    T operator()(hep::mc_point<T> const& p) const { T f, dv; bool pr; values(p.point()[0], f, dv, pr); return f; }
+    T operator()(hep::mc_point<T> const& p) const { sz const index = g.calls; T f, dv; bool pr; values(p.point()[0], f, dv, pr); observe(p, index, g.paired ? bad_value<T>(3) : f); return f; }
     T operator()(hep::mc_point<T> const& p, hep::projector<T>& proj) const
     {
+        sz const index = g.calls;
         T f, dv; bool pr; values(p.point()[0], f, dv, pr);
+        observe(p, index, g.paired ? bad_value<T>(3) : f);
         if (pr) { proj.add(0, p.point()[0], dv); proj.add(1, p.point()[0], p.point()[1], dv); }
         return f;
     }
@@ -205,7 +209,7 @@ static void enumerate(report& r)
         if (src == src_dist_value && !dist) continue;
         if (src == src_weight && kind < 2) continue;
         if (kind == 3 && src != src_weight) continue;
-        int const nkinds = src == src_weight ? (kind == 3 ? 5 : 4) : 3;
+        int const nkinds = src == src_weight ? (kind == 3 ? 5 : 4) : src == src_value ? 4 : 3;
         std::string const base = tn + " integrator=" + std::to_string(kind) + " src=" + std::to_string(src) + " dist=" + std::to_string(dist);
         if (!r.want_prefix(base.substr(0, std::min(base.size(), r.a().replay_case.size())))) continue;
         for (sz iter = 0; iter != 3; ++iter)
@@ -242,6 +246,13 @@ static void enumerate(report& r)
                 auto const got = run<T>(kind, dist != 0);
                 r.eval();
                 std::set<sz> zero_at(members.begin(), members.end());
+                if (src == src_value)
+                {
+                    // a huge finite value is a fault only where its product with the weight overflows (observed)
+                    bool unmet = false;
+                    for (sz i = 0; i != members.size(); ++i) unmet |= a[i] == 3 && !g.observed.count(members[i]);
+                    if (unmet) { r.count("huge_value_without_non_finite_product"); continue; }
+                }
                 if (src == src_weight)
                 {
                     zero_at = g.observed;
